@@ -205,7 +205,8 @@ async def _run(ctx, ttext):
         if dst == B.ep.addr and d[:22] in prefix_to_idx:
             i = prefix_to_idx[d[:22]]
             kind = B.kinds.get((id(B.overlays[i]), d[22] if len(d) > 22 else -1), ("raw", ()))[0]
-            if kind == "signed":
+            if kind == "signed" or (kind == "raw" and independent_auth(d)[0]):
+                # also hand-parsed handlers of authenticated messages (e.g. DiscoveryCommunity's 246)
                 valid.append((i, d, src, "captured"))
     covered = {(i, d[22]) for i, d, _, _ in valid}
     total_ids = 0
@@ -235,7 +236,7 @@ async def _run(ctx, ttext):
     # verified set is compared before/after every delivery instead
     for (i, d, src, how) in valid:
         ov = B.overlays[i]
-        kind, payloads = B.kinds[(id(ov), d[22])]
+        kind, payloads = B.kinds.get((id(ov), d[22]), ("raw", ()))
         fmts = []
         for p in payloads:
             fmts.extend(wire.class_fmts(p, reg))
@@ -248,6 +249,14 @@ async def _run(ctx, ttext):
             if j != i:
                 muts.append(("replay-into-other-overlay", ov2.get_prefix() + d[22:]))
         for (mname, md) in muts:
+            # forget the peers named by the datagram's key field (in every overlay of the receiver), so that a
+            # verified-peer entry created by this very datagram is observable
+            kf = independent_auth(md)[1]
+            for o2 in B.overlays:
+                nw = o2.network
+                for p in [p for p in list(nw.verified_peers) if p.public_key.key_to_bin() == kf]:
+                    nw.remove_peer(p)
+                nw.verified_by_public_key_bin.pop(kf, None)
             before = {p.public_key.key_to_bin() for p in B.overlays[i].network.verified_peers}
             esc, evs, bodies = B.feed_from(src, md)
             await asyncio.sleep(0)
@@ -277,10 +286,10 @@ async def _run(ctx, ttext):
                 if not (auth_ok and newk == pk_field):
                     ctx.violation("verified-peer-without-signature/%s" % mname,
                                   "key %s became a verified peer through a datagram not signed by it" % newk.hex()[:16], m)
-            if mname == "unmutated" and not entered_signed:
+            if mname == "unmutated" and not entered_signed and kind == "signed":
                 ctx.violation("authentic-datagram-rejected", "a valid %s datagram (%s) did not reach its handler" % (type(ov).__name__, how), m)
             # correspondence with the model of the decorator (only for datagrams addressed to this overlay's signed id)
-            if md[:22] == ov.get_prefix() and len(md) > 22 and md[22] == d[22] and len(md) <= 600:
+            if kind == "signed" and md[:22] == ov.get_prefix() and len(md) > 22 and md[22] == d[22] and len(md) <= 600:
                 # oracle tables for the model: siglen of the key field, validity of the split the MODEL prescribes
                 lens, valids = [], []
                 if pk_field is not None:
